@@ -47,8 +47,11 @@ ConvWithin(be, regime, a, s1, s2, r) ==
     IN  IF regime = "exact" THEN XIsZero(lhs)
         ELSE IF be = "f64"
         THEN XLe(lhs, RelTol(x)) \/ XLe(lhs, XAdd(RelTol(x), XScale2(XAbs(s2), -1073)))
-        ELSE XLe(lhs, AbsTol(XAdd(XAdd(XAbs(s2), XMul(XAbs(a), XAbs(s2))),
-                                  XAdd(XOne, XMul(XAbs(r), XAbs(s1))))))
+        ELSE \* Kd*d*(1 + |a| + 1/s2), times s2: the ratio s1/s2 (sensitivity |a|), the operand in the
+             \* reference unit (1/s2) and the result itself may each be rounded at 10^-18.  Dividing by the
+             \* INVERSE ratio s2/s1 is deliberately not among the admitted evaluation orders: it loses up
+             \* to log10(s1/s2) digits of conversions into a smaller unit, which are exact otherwise.
+             XLe(lhs, AbsTol(XAdd(XAdd(XAbs(s2), XMul(XAbs(a), XAbs(s2))), XOne)))
 
 (* the natural magnitudes of a conversion are in range                     *)
 ConvInRange(be, a, s1, s2, smin) ==
